@@ -199,27 +199,68 @@ func runCheck(env *Env, id, tier string, spec *CheckSpec, doReplay bool) int {
 	evPath := filepath.Join(evDir, id+".json")
 	os.Remove(evPath)
 
-	ld, err := loadTargets(env, spec.Jobs)
-	if err != nil {
-		fmt.Println("INCONCLUSIVE: cannot load code under test:", err)
-		return 2
-	}
-	if env.Verbose {
-		fmt.Fprintf(os.Stderr, "loaded in %.1fs\n", ld.loadDur.Seconds())
-	}
+	// jobs are grouped per module (memutils / vam are separate Go modules and are loaded separately)
 	var jobs []*Job
 	specByEntry := map[string]JobSpec{}
+	var moduleOrder []string
+	byModule := map[string][]JobSpec{}
 	for _, js := range spec.Jobs {
 		specByEntry[js.Entry] = js
-		cfgs := js.CfgsQuick
-		if tierN == 1 && len(js.CfgsThorough) > 0 {
-			cfgs = js.CfgsThorough
+		if _, ok := byModule[js.Module]; !ok {
+			moduleOrder = append(moduleOrder, js.Module)
 		}
-		for _, c := range cfgs {
-			jobs = append(jobs, &Job{Entry: js.Entry, Cfg: c, Tier: tierN, Prop: id})
+		byModule[js.Module] = append(byModule[js.Module], js)
+	}
+	rr := &RunResult{funcs: map[string]string{}, siteStats: map[string]*[3]int{}}
+	ld := &Loaded{overlay: map[string]string{}}
+	for _, mod := range moduleOrder {
+		mld, err := loadTargets(env, byModule[mod])
+		if err != nil {
+			fmt.Println("INCONCLUSIVE: cannot load code under test:", err)
+			return 2
+		}
+		if env.Verbose {
+			fmt.Fprintf(os.Stderr, "loaded %s in %.1fs\n", mod, mld.loadDur.Seconds())
+		}
+		var mjobs []*Job
+		for _, js := range byModule[mod] {
+			cfgs := js.CfgsQuick
+			if tierN == 1 && len(js.CfgsThorough) > 0 {
+				cfgs = js.CfgsThorough
+			}
+			for _, c := range cfgs {
+				mjobs = append(mjobs, &Job{Entry: js.Entry, Cfg: c, Tier: tierN, Prop: id})
+			}
+		}
+		mrr := runJobs(env, mld, mjobs, specByEntry)
+		jobs = append(jobs, mjobs...)
+		for v, r := range mld.overlay {
+			ld.overlay[v] = r
+		}
+		ld.loadDur += mld.loadDur
+		rr.wall += mrr.wall
+		rr.queries += mrr.queries
+		rr.sat += mrr.sat
+		rr.unsat += mrr.unsat
+		rr.unknown += mrr.unknown
+		rr.solverDur += mrr.solverDur
+		if mrr.slowest > rr.slowest {
+			rr.slowest = mrr.slowest
+		}
+		for f, file := range mrr.funcs {
+			rr.funcs[f] = file
+		}
+		rr.samples = append(rr.samples, mrr.samples...)
+		rr.solverErr = append(rr.solverErr, mrr.solverErr...)
+		rr.timedOut = rr.timedOut || mrr.timedOut
+		rr.crashed = append(rr.crashed, mrr.crashed...)
+		rr.coreHits += mrr.coreHits
+		rr.ivalSkips += mrr.ivalSkips
+		rr.fallbacks += mrr.fallbacks
+		for k, v := range mrr.siteStats {
+			rr.siteStats[k] = v
 		}
 	}
-	rr := runJobs(env, ld, jobs, specByEntry)
 
 	// ---- aggregate
 	inconclusive := []string{}
@@ -632,7 +673,7 @@ func tail(s string, n int) string {
 func compareNative(rec *PathRecord, o NativeOut) (bool, string) {
 	switch rec.Outcome {
 	case "assert":
-		if o.Outcome == "assert" && o.Fail == rec.FailLabel {
+		if o.Outcome == "assert" && (o.Fail == rec.FailLabel || strings.HasPrefix(o.Fail, rec.FailLabel+" [")) {
 			return true, ""
 		}
 		return false, fmt.Sprintf("native outcome=%s fail=%q panic=%q", o.Outcome, o.Fail, o.PanicMsg)
@@ -686,7 +727,26 @@ func cmdReplay(env *Env, file string) int {
 		}
 	}
 	if js == nil {
-		fmt.Println("entry not registered:", recs[0].Entry)
+		// not in checks.json (development entry): look the function up in the harness directories
+		filepath.WalkDir(filepath.Join(env.Verif, "harness"), func(p string, d os.DirEntry, err error) error {
+			if err != nil || d.IsDir() || !strings.HasSuffix(p, ".go") {
+				return nil
+			}
+			b, _ := os.ReadFile(p)
+			if strings.Contains(string(b), "func "+recs[0].Entry+"(") {
+				rel, _ := filepath.Rel(filepath.Join(env.Verif, "harness"), filepath.Dir(p))
+				parts := strings.SplitN(rel, string(filepath.Separator), 2)
+				pkg := "."
+				if len(parts) == 2 {
+					pkg = parts[1]
+				}
+				js = &JobSpec{Module: parts[0], Pkg: pkg, Entry: recs[0].Entry}
+			}
+			return nil
+		})
+	}
+	if js == nil {
+		fmt.Println("entry not found:", recs[0].Entry)
 		return 2
 	}
 	ld := &Loaded{overlay: map[string]string{}}
